@@ -57,6 +57,9 @@ def make_device(name, beh, ctx):
                     val = (o.get("v", 0) + n * o.get("step", 1)) % mod
                 elif kind == "sum":
                     val = (o.get("v", 0) + sum(int(x) for x in inputs.values() if isinstance(x, int))) % mod
+                elif kind == "cycle":
+                    vals = o.get("vals", [None, 0])
+                    val = vals[n % len(vals)]
                 elif kind == "time":
                     val = int(time)
                 else:
